@@ -14,6 +14,7 @@ sequence), ticks, clock jumps — from any world `w0` in which the observed queu
 (`World.build` produces such worlds).
 -/
 import OsmoVerif.Lemmas.WorldQueue
+import OsmoVerif.Lemmas.WorldSched
 
 namespace OsmoVerif.Props.C03
 open OsmoVerif OsmoVerif.World OsmoVerif.Spec.TxQueue OsmoVerif.PyStr
@@ -326,6 +327,151 @@ theorem out_of_range_fn_stale (w0 : World) (ops ops2 : List Op) (j : Nat) (h0 : 
   have hu := (exactly_once w0 (ops ++ ops2) j h0).outcome_unique
   have := outcome_event_unique _ hu _ hst' _ hem p.1 rfl rfl
   cases this
+
+/-! ## Part B — schedules
+
+`Model/WorldSched.lean`: the socket thread executes complete operations, the clock thread executes
+one tick as a sequence of atomic actions (read `running` | locked section | `forward_msg` begin |
+one recipient | stale report | … | `clck_src` increment).  A schedule `acts : List Act` is ANY
+interleaving of socket operations with clock-thread actions (any number of socket operations between
+any two clock actions; the property's "one arrival / power command racing one tick" are the
+schedules with one socket action).  `sghost s0 acts j` is the bookkeeping of transceiver `j`: `g`
+(ids of the queued messages and the log, as in part A), `pendE` / `pendD` (tagged messages in the
+clock thread's local `emit` / `drop` lists: outcome pending), `snap` (tagged queue at the moment of
+the last locked section of `j`) and `tickLog` (tick outcomes produced since).  Initial states: clock
+thread between two ticks, queue of `j` empty. -/
+
+section PartB
+open OsmoVerif.World.Sched
+
+/-- `interleaved_inv`: in every state reachable by any schedule the part-A invariant holds with the
+clock thread's local lists as a third place a burst can be: ids are distinct; every accepted id is
+accounted for exactly once — by exactly one outcome event, by one place in the queue, or by one
+place in the local `emit` / `drop` lists (outcome pending) — and nothing else is; an emitted burst
+was emitted at the tick of its own frame; a stale report was for a passed frame; and the bookkeeping
+is in lock-step with the model's queue. -/
+theorem interleaved_inv (s0 : State) (acts : List Act) (j : Nat) (h0 : Initial j s0) :
+    ExactlyOnce (fun m : Trxd.TxMsg => m.fn) (sghost s0 acts j).g.log
+      ((sghost s0 acts j).g.ids ++ ((sghost s0 acts j).pendE ++ (sghost s0 acts j).pendD).map Prod.fst) ∧
+    (sghost s0 acts j).g.ids.length = (queueOf (exec s0 acts).w j).length ∧
+    (∀ p ∈ (sghost s0 acts j).g.ids.zip (queueOf (exec s0 acts).w j) ++
+            ((sghost s0 acts j).pendE ++ (sghost s0 acts j).pendD),
+      Event.accepted p.1 p.2 ∈ (sghost s0 acts j).g.log) := by
+  have h := (sghost_inv h0 acts).inv
+  exact ⟨h.spec, h.lock, h.tagged⟩
+
+/-- under every schedule: at most one outcome per burst, never emitted twice -/
+theorem interleaved_outcome_unique (s0 : State) (acts : List Act) (j : Nat) (h0 : Initial j s0) :
+    (outIds (sghost s0 acts j).g.log).Nodup :=
+  (interleaved_inv s0 acts j h0).1.outcome_unique
+
+/-- under every schedule: emitted only during the tick of its own frame -/
+theorem interleaved_emitted_on_time (s0 : State) (acts : List Act) (j : Nat) (h0 : Initial j s0)
+    (id tickFn : Nat) (h : Event.emitted id tickFn ∈ (sghost s0 acts j).g.log) :
+    ∃ msg, Event.accepted id msg ∈ (sghost s0 acts j).g.log ∧ msg.fn = some (tickFn : Int) :=
+  (interleaved_inv s0 acts j h0).1.on_time id tickFn h
+
+/-- under every schedule nothing vanishes: an accepted burst has an outcome, or is in the queue, or
+is in the clock thread's local lists — exactly one of these, exactly once -/
+theorem interleaved_no_silent_loss (s0 : State) (acts : List Act) (j : Nat) (h0 : Initial j s0) :
+    (∀ id, id ∈ accIds (sghost s0 acts j).g.log ↔
+      (id ∈ outIds (sghost s0 acts j).g.log ∨ id ∈ (sghost s0 acts j).g.ids ∨
+       id ∈ ((sghost s0 acts j).pendE ++ (sghost s0 acts j).pendD).map Prod.fst)) ∧
+    (outIds (sghost s0 acts j).g.log ++ ((sghost s0 acts j).g.ids ++
+      ((sghost s0 acts j).pendE ++ (sghost s0 acts j).pendD).map Prod.fst)).Nodup := by
+  have h := (interleaved_inv s0 acts j h0).1
+  refine ⟨fun id => ?_, h.nodup_all⟩
+  rw [h.accounted_iff, List.mem_append]
+
+/-- the pending lists are the clock thread's locals: inside `clck_tick(j)` (after the locked
+section) they are in lock-step with the local `emit` / `drop` lists and correctly classified;
+between the ticks of `j` they are empty -/
+theorem pending_lock_step (s0 : State) (acts : List Act) (j : Nat) (h0 : Initial j s0) :
+    PcOk j (sghost s0 acts j) (exec s0 acts).pc :=
+  (sghost_inv h0 acts).pcOk
+
+/-- `tick_outcomes_schedule_independent`: when `clck_tick(j)` of the tick at frame `fn` is through
+its two loops, the outcome events it has produced for `j` are exactly `tickEvents fn snap` — the
+same function of the tagged queue `snap` at the moment of the locked section that the sequential
+semantics applies (`ghost_tick_complete`) — whatever socket operations were interleaved where; and
+they are all in the log. -/
+theorem tick_outcomes_schedule_independent (s0 : State) (acts : List Act) (j : Nat) (h0 : Initial j s0)
+    (fn : Nat) (js : List Nat) (hpc : (exec s0 acts).pc = Pc.loop fn j [] [] js) :
+    (sghost s0 acts j).tickLog = tickEvents fn (sghost s0 acts j).snap ∧
+    (∀ e ∈ (sghost s0 acts j).tickLog, e ∈ (sghost s0 acts j).g.log) ∧
+    (sghost s0 acts j).pendE = [] ∧ (sghost s0 acts j).pendD = [] := by
+  have h := sghost_inv h0 acts
+  have hp := h.pcOk
+  rw [hpc] at hp
+  simp only [PcOk, if_true] at hp
+  have hE : (sghost s0 acts j).pendE = [] := List.map_eq_nil_iff.mp hp.lockE
+  have hD : (sghost s0 acts j).pendD = [] := List.map_eq_nil_iff.mp hp.lockD
+  refine ⟨?_, h.sub, hE, hD⟩
+  have := hp.total
+  simpa only [pendEvents, hE, hD, List.map_nil, List.append_nil] using this
+
+/-- … where `snap` is the tagged queue at the moment the locked section ran (and the tick's own log
+starts empty there) -/
+theorem snapshot_is_queue_at_lock (s0 : State) (acts : List Act) (j fn : Nat) (js : List Nat)
+    (hpc : (exec s0 acts).pc = Pc.lock fn j js) :
+    (sghost s0 (acts ++ [Act.clk]) j).snap =
+      (sghost s0 acts j).g.ids.zip (queueOf (exec s0 acts).w j) ∧
+    (sghost s0 (acts ++ [Act.clk]) j).tickLog = [] := by
+  rw [sghost_snoc]; exact snap_at_lock hpc
+
+/-- the clock thread touches the queue of `j` only in the locked section of `clck_tick(j)`, where it
+replaces it by its `wait` partition; so a message appended after the locked section simply stays
+queued for a later tick … -/
+theorem clock_touches_queue_only_in_locked_section (s : State) (j : Nat) :
+    queueOf (clockStep s).w j =
+      match s.pc with
+      | Pc.lock fn j' _ => if j' = j then waitPart fn (queueOf s.w j) else queueOf s.w j
+      | _ => queueOf s.w j :=
+  clockStep_queue s j
+
+/-- … because the pending lists are filled only by the locked section, from the queue as it is at
+that moment, and only pending messages ever get a tick outcome. -/
+theorem late_arrival_stays_queued (s0 : State) (acts : List Act) (a : Act) (j : Nat) :
+    (∀ p ∈ (sghost s0 (acts ++ [a]) j).pendE ++ (sghost s0 (acts ++ [a]) j).pendD,
+      p ∈ (sghost s0 acts j).pendE ++ (sghost s0 acts j).pendD ∨
+      (a.op? = none ∧ ∃ fn js, (exec s0 acts).pc = Pc.lock fn j js ∧
+        p ∈ (sghost s0 acts j).g.ids.zip (queueOf (exec s0 acts).w j))) ∧
+    (∀ id fn, (Event.emitted id fn ∈ (sghost s0 (acts ++ [a]) j).g.log ∧
+               Event.emitted id fn ∉ (sghost s0 acts j).g.log) ∨
+              (Event.stale id fn ∈ (sghost s0 (acts ++ [a]) j).g.log ∧
+               Event.stale id fn ∉ (sghost s0 acts j).g.log) →
+      a.op? = none ∧ ∃ p ∈ (sghost s0 acts j).pendE ++ (sghost s0 acts j).pendD, p.1 = id) := by
+  rw [sghost_snoc]
+  refine ⟨fun p hp => pending_only_from_lock hp, fun id fn h => ?_⟩
+  rcases h with ⟨h1, h2⟩ | ⟨h1, h2⟩
+  · exact tick_outcome_needs_pending h1 h2 id fn (.inl rfl)
+  · exact tick_outcome_needs_pending h1 h2 id fn (.inr rfl)
+
+/-- `poweroff_does_not_unemit` — the boundary of "as long as the transceiver stays powered on".
+A socket operation (e.g. POWEROFF) executed after the locked section changes neither the clock
+thread's control state nor its local `emit` / `drop` lists: a burst already moved to `emit` is still
+handed to `forward_msg` by the running clock thread at its next action, in its own frame, even though
+its transceiver has been powered off in between (the queue, i.e. the bursts that were waiting, is
+cleared).  What `forward_msg` then does: the sender's `running` flag is not consulted; the
+frequency is read from the static `_tx_freq` because POWEROFF has reset `fh`; running recipients on
+that frequency get the burst (see the example below). -/
+theorem poweroff_does_not_unemit (s0 : State) (acts : List Act) (j : Nat) (h0 : Initial j s0) :
+    (∀ a op, a.op? = some op →
+      (exec s0 (acts ++ [a])).pc = (exec s0 acts).pc ∧
+      (sghost s0 (acts ++ [a]) j).pendE = (sghost s0 acts j).pendE ∧
+      (sghost s0 (acts ++ [a]) j).pendD = (sghost s0 acts j).pendD) ∧
+    (∀ fn m emit drop js, (exec s0 acts).pc = Pc.loop fn j (m :: emit) drop js →
+      ∃ p rest, (sghost s0 acts j).pendE = p :: rest ∧ p.2 = m ∧ p.2.fn = some (fn : Int) ∧
+        Event.emitted p.1 fn ∈ (sghost s0 (acts ++ [Act.clk]) j).g.log) := by
+  refine ⟨fun a op ha => ?_, fun fn m emit drop js hpc => ?_⟩
+  · rw [sghost_snoc, exec_snoc]
+    obtain ⟨h1, h2, h3, -⟩ := sock_keeps_pending j acts.length (exec s0 acts) op (sghost s0 acts j) a ha
+    exact ⟨h1, h2, h3⟩
+  · obtain ⟨p, rest, h1, h2, h3, h4⟩ := pending_emit_is_emitted (sghost_inv h0 acts) hpc
+    rw [sghost_snoc]
+    exact ⟨p, rest, h1, h2, h4, h3⟩
+
+end PartB
 
 /-! ## Non-vacuity (Part A) -/
 
